@@ -329,6 +329,9 @@ def histories_stage(ctx, pid, label, compare_used=True):
                     st = stream(gen="random", len=rng.choice([64, 80, 200]))
                 c = case("%s-h%d-%d" % (label, n, k), ph, st, [rng.randrange(1, 40)] if st["from"] else [], pace_ms=2, peer_close=not cn["matched"])
                 c.update(after=prev, ops=["%s:%s" % (OPS[o], R) for (o, _) in cn["ops"]], watch=R, sweep_on_match=cn["swept"], own_reg=R)
+                # a later connection with R's flight is a REPLAY in the literal sense: the byte-identical first flight an observer
+                # captured from R's earlier connection (min, prefix; an obfs4 handshake is rejected by the library's own replay filter)
+                c["replay_exact"] = cn["kind"] == "own" and rt in ("min", "prefix")
                 if not cn["matched"]:
                     c["client_wait_ms"] = 700      # an interactive (obfs4) client that is not answered gives up
                 last = cn["ops"][-1][0] if cn["ops"] else ("Swept" if k and conns[k - 1]["swept"] else "conn")
